@@ -125,6 +125,18 @@ def evaluate(cases, rep, tier):
             expb = b[:5] + [0] + b[6:]
             if vals[:5] != expf or vals[5:] != expb:
                 counter.append({"input": c.impl_line(), "expected": f"{expf} {expb}", "observed": i, "oracle": "OTI re-serialise (reserved byte zeroed)"})
+    # per profile: (a) an id beyond 24 bits has no 4-byte wire form, so it must be refused, never serialised;
+    # (b) every 4- / 12-byte buffer parses (re-serialisation is required for EVERY parsed buffer)
+    both = G.all_profiles_impl(cases, PROFILES)
+    for prof in PROFILES:
+        for c, i in zip(cases, both[prof]):
+            t = i.split()
+            if c.fn in ("pid_new", "pid_ser") and c.args[1] >= (1 << 24) and t[0] == "1":
+                counter.append({"input": c.impl_line(), "expected": "refusal: the encoding symbol id does not fit 24 bits, the 4-byte wire form cannot carry it (round trip impossible)", "observed": i[:60], "profile": prof, "oracle": "C13 round trip for every representable value"})
+                break
+            if c.fn in ("pid_deser", "oti_deser") and len(c.args) in (4, 12) and t[0] != "1":
+                counter.append({"input": c.impl_line(), "expected": "a parsed value (every buffer of the right length parses and re-serialises)", "observed": i[:60], "profile": prof, "oracle": "C13 re-serialisation of a parsed buffer"})
+                break
     nontriv = len(set(c.key() for c in cases if sum(1 for x in c.args if x) >= 2))
     kinds = {}
     for c in cases:
